@@ -715,15 +715,16 @@ class ComplexFormatFunction(FormatFunction):
                 # the band dimension is not flattened, we have to transform
                 temp_sl = reformat_slice(use_subscript[index], shape_limit, rev)
 
-                if index == self.band_dimension and temp_sl.step not in [-1, 1]:
+                if index == self.band_dimension and temp_sl.step != 1:
+                    # NB: traversing the real/imaginary pairs backwards would swap their roles
                     raise ValueError(
                         'Slicing along the complex dimension and applying this format function\n\t'
-                        'is only only permitted using step +/-1')
+                        'is only only permitted using step 1')
                 if temp_sl.step > 0:
                     start = 2*temp_sl.start if index == self.band_dimension else temp_sl.start
                     # noinspection PyTypeChecker
                     stop = 2*temp_sl.stop if index == self.band_dimension else temp_sl.stop
-                    out.append(slice(start, stop, 1))
+                    out.append(slice(start, stop, temp_sl.step))
                 elif temp_sl.step < 0:
                     start = 2*temp_sl.start if index == self.band_dimension else temp_sl.start
                     if temp_sl.stop is None:
@@ -732,7 +733,7 @@ class ComplexFormatFunction(FormatFunction):
                         stop = 2*temp_sl.stop
                     else:
                         stop = temp_sl.stop
-                    out.append(slice(start, stop, -1))
+                    out.append(slice(start, stop, temp_sl.step))
             else:
                 out.append(reformat_slice(use_subscript[index], shape_limit, rev))
         return tuple(out)
